@@ -23,7 +23,9 @@ STEPS = "CDEFGAB"
 
 # ---------------------------------------------------------------------- generation
 def random_part_desc(rng, pid="P0", divs=None, n_measures=None, voices=2, staves=1, p_tie=0.15,
-                     p_grace=0.08, p_rest=0.12, p_chord=0.25, p_unp=0.0, ts_changes=True, alters=(-2, -1, 0, 0, 0, 1, 2)):
+                     p_grace=0.08, p_rest=0.12, p_chord=0.25, p_unp=0.0, ts_changes=True, alters=(-2, -1, 0, 0, 0, 1, 2),
+                     p_uneven=0.0):
+    """p_uneven: probability that a chord member gets its own (shorter) duration, i.e. polyphony inside one voice"""
     divs = divs or rng.choice([1, 2, 3, 4, 6, 8, 12, 24])
     n_measures = n_measures or rng.randint(1, 5)
     ts_pool = [(4, 4), (3, 4), (2, 4), (6, 8), (5, 4), (2, 2), (3, 8), (9, 8)]
@@ -81,7 +83,10 @@ def random_part_desc(rng, pid="P0", divs=None, n_measures=None, voices=2, staves
                                 break
                     used.add((step, octv))
                     kind = "unp" if rng.random() < p_unp else "note"
-                    n = {"id": "n%d" % nid, "t": pos, "dur": dur, "kind": kind, "step": step, "alter": alter,
+                    ndur = dur
+                    if c > 0 and dur > 1 and rng.random() < p_uneven:
+                        ndur = rng.randint(1, dur - 1)
+                    n = {"id": "n%d" % nid, "t": pos, "dur": ndur, "kind": kind, "step": step, "alter": alter,
                          "oct": octv, "voice": v, "staff": staff}
                     nid += 1
                     if prev is not None and c == 0 and kind == "note":
